@@ -85,10 +85,14 @@ def histories(draw, tier):
         if r <= 6:
             steps.append({"op": "generate", "doc": draw(st.integers(0, n_docs - 1)),
                           "meta": main_meta if draw(st.integers(0, 4)) > 0 else draw(st.sampled_from(["none", "poetry", "setup", "pdm"])),
-                          "overwrite": draw(st.booleans()), "target": draw(st.sampled_from(["output_path", "output_path", "default"]))})
+                          "overwrite": draw(st.booleans()), "target": draw(st.sampled_from(["output_path", "output_path", "default"])),
+                          # a module name given through the class_overrides option is a file name too
+                          "override_module": draw(st.sampled_from([None, None, None, None, "../../escaped_mod", "../pkg_level_mod", "/abs/mod",
+                                                                   "sub/dir/mod", "plain_mod", "..", "a.b"]))})
         elif r <= 8:
             steps.append({"op": "user_file", "where": draw(st.sampled_from(["project", "package"])),
-                          "name": draw(st.sampled_from(["user_notes.md", "user_extras.py", "user_contrib/user_x.txt"])),
+                          "name": draw(st.sampled_from(["user_notes.md", "user_extras.py", "user_contrib/user_x.txt", "setup.py", "setup.py", "setup.py", "setup.py",
+                                                        "pyproject.toml", "Makefile"])),
                           "target": draw(st.sampled_from(["output_path", "default"]))})
         else:
             steps.append({"op": "sentinel", "name": draw(st.sampled_from(["sentinel_new.txt", "keep/sentinel2.bin"]))})
@@ -97,6 +101,32 @@ def histories(draw, tier):
 
 def strategy(tier):
     return histories(tier)
+
+
+def _fixed_doc(i, n_schemas):
+    schemas = {f"Item{i}{k}": {"type": "object", "properties": {"name": {"type": "string"}, "kind": {"type": "string", "enum": ["a", "b"]}}}
+               for k in range(n_schemas)}
+    return {"openapi": "3.0.3", "info": {"title": "Fixed History", "version": "1"},
+            "paths": {f"/p{i}": {"get": {"operationId": f"op{i}", "tags": [f"tag{i}"], "responses": {"200": {"description": "ok"}}}}},
+            "components": {"schemas": schemas}}
+
+
+def sweep(tier):
+    """Complete small histories, every run: generate, drop user files of every name into the project (and package) directory,
+    regenerate another document with overwrite - for every flavour and both ways of addressing the directory."""
+    out = []
+    names = ["user_notes.md", "user_extras.py", "user_contrib/user_x.txt", "setup.py", "pyproject.toml", "Makefile"]
+    for meta in ("none", "poetry", "setup", "pdm"):
+        for target in ("output_path", "default"):
+            for second_doc in (1, 2):   # 2 = a document without schemas
+                steps = [{"op": "generate", "doc": 0, "meta": meta, "overwrite": False, "target": target, "override_module": None}]
+                steps += [{"op": "user_file", "where": "project", "name": n, "target": target} for n in names]
+                steps += [{"op": "user_file", "where": "package", "name": "user_extras.py", "target": target}]
+                steps += [{"op": "generate", "doc": second_doc, "meta": meta, "overwrite": True, "target": target, "override_module": None},
+                          {"op": "generate", "doc": 0, "meta": meta, "overwrite": True, "target": target, "override_module": "../pkg_level_mod"},
+                          {"op": "generate", "doc": second_doc, "meta": meta, "overwrite": True, "target": target, "override_module": None}]
+                out.append({"docs": [_fixed_doc(0, 2), _fixed_doc(1, 1), _fixed_doc(2, 0)], "steps": steps})
+    return out
 
 
 def _snap_outside(parent, exclude):
@@ -183,7 +213,15 @@ def run(case, ctx):
             # ---- generate
             before_out = _snap_outside(outer, [target])
             before_target = sut.snapshot(target) if os.path.isdir(target) else None
-            args = ["generate", "--path", doc_paths[step["doc"] % len(doc_paths)], "--meta", step["meta"], "--config", cfgp]
+            step_cfg = cfgp
+            if step.get("override_module"):
+                names_ = list((doc.get("components") or {}).get("schemas") or {})
+                if names_:
+                    step_cfg = os.path.join(srcdir, f"cfg_step{si}.json")
+                    with open(step_cfg, "w") as f:
+                        json.dump({"post_hooks": [], "class_overrides": {names_[0]: {"module_name": step["override_module"]}}}, f)
+                    ctx.label("module_name_override")
+            args = ["generate", "--path", doc_paths[step["doc"] % len(doc_paths)], "--meta", step["meta"], "--config", step_cfg]
             if step["overwrite"]:
                 args.append("--overwrite")
             if step["target"] == "output_path":
@@ -236,7 +274,7 @@ def run(case, ctx):
             fresh_parent = env.fresh_dir("c19fresh")
             fresh_sandbox = os.path.join(fresh_parent, "sandbox")
             os.makedirs(fresh_sandbox)
-            fargs = ["generate", "--path", doc_paths[step["doc"] % len(doc_paths)], "--meta", step["meta"], "--config", cfgp]
+            fargs = ["generate", "--path", doc_paths[step["doc"] % len(doc_paths)], "--meta", step["meta"], "--config", step_cfg]
             ftarget = os.path.join(fresh_sandbox, os.path.basename(target))
             if step["target"] == "output_path":
                 fargs += ["--output-path", ftarget]
@@ -244,6 +282,9 @@ def run(case, ctx):
             ctx.evals()
             want = sut.snapshot(ftarget)
             got = sut.snapshot(target)
+            for rel in [r for r in st_["user"] if r in want]:
+                # a user file named like a file this flavour generates is the generator's from now on
+                del st_["user"][rel]
             for rel, data in st_["user"].items():
                 if got.get(rel) != data:
                     ctx.violation("overwrite.user_files_untouched", {**site, "where": "package" if os.sep in rel and not rel.startswith("user_contrib") else "project"},
